@@ -133,6 +133,23 @@ open Gkv.Cache in
 theorem views_exist (T : Tree) : Rep (ofTree T) T ∧ (T.Persisted → Rep (cold T) T) :=
   ⟨rep_ofTree T, rep_cold T⟩
 
+open Gkv.Cache in
+/-- The hypothesis of `cache_invisible` holds in every reachable state: after ANY admissible history
+    of collection operations, Set/Delete, Flush and re-open (`Machine.invariant`), every collection's
+    tree is coherent with the file as it is then, so lookups, Min/Max and evictions through any
+    cached view of it — with the fuel the driver uses — answer as the abstract tree does. -/
+theorem cache_invisible_reachable (cmpOf : Bytes → CmpKind) (hist : List Gkv.Machine.SOp)
+    (hok : Gkv.Machine.HistOK cmpOf hist) (c : Coll) (hc : c ∈ (Gkv.Machine.srun cmpOf hist).colls)
+    (ops : List COp) (view : CTree) (hr : Rep view c.root) :
+    ∃ outs view' rds,
+      runC (Gkv.Machine.srun cmpOf hist).file c.cmp.fn (c.root.size + 2) ops view = some (outs, view', rds) ∧
+      Rep view' c.root ∧ AgreeAll c.cmp.fn c.root outs ops := by
+  have inv := Gkv.Machine.invariant cmpOf hist hok
+  have hf : c.root.height < c.root.size + 2 := by
+    have := Tree.height_le_size c.root
+    omega
+  exact cache_invisible _ _ c.cmp.fn _ c.root (inv.coherent c hc) hf ops view hr
+
 -- non-vacuity: a concrete history with an overwrite and a delete
 example : (([Mut.set ⟨[1], [10], 5⟩, .set ⟨[2], [20], 9⟩, .set ⟨[1], [11], 1⟩, .del [2]] : List Mut).foldl
     (applySpec cmpBytes) []) = [⟨[1], [11], 1⟩] := by decide
